@@ -14,13 +14,22 @@ Singles(s) ==
   /\ \A m \in MutsOf(s, Thorough) : PrintT(<<"CASE", ToJson(CaseOf(s, <<m>>))>>)
   /\ (s.name = "t_empty" => \A t \in Strs3 : PrintT(<<"CASE", ToJson(StrCase(s, t))>>))
 
-(* pairs of distinct core mutations, the first one at the smaller (or equal) offset *)
-Before(s, m1, m2) ==
-  LET e1 == EditOf(s, m1) e2 == EditOf(s, m2)
-  IN m1 # m2 /\ (e1.at < e2.at \/ (e1.at = e2.at /\ m1.m # m2.m))
+(* pairs of distinct core mutations, the first one at the smaller (or equal) offset.   *)
+(* All pairs would be quadratic in the size of the seed; emitted are the pairs that can *)
+(* interact: edits at most NearBy(s) bytes apart, any two SetValue mutations (image     *)
+(* attributes multiply), and SetValue with anything inside the Pixel Data element.      *)
+NearBy(s) == IF s.kind = "text" THEN 6 ELSE 48
+Coupled(s, m1, m2, e1, e2, ps) ==
+  \/ e2.at - e1.at <= NearBy(s)
+  \/ (m1.m = "SetValue" /\ m2.m = "SetValue")
+  \/ (m1.m = "SetValue" /\ e2.at >= ps /\ ps < s.n)
 PairsOf(s) ==
-  LET C == MutsCore(s)
-  IN \A m1 \in C : \A m2 \in C : Before(s, m1, m2) => PrintT(<<"CASE", ToJson(CaseOf(s, <<m1, m2>>))>>)
+  LET C  == MutsCore(s)
+      ps == PixStart(s)
+  IN \A m1 \in C : LET e1 == EditOf(s, m1) IN
+       \A m2 \in C : LET e2 == EditOf(s, m2) IN
+         (m1 # m2 /\ (e1.at < e2.at \/ (e1.at = e2.at /\ m1.m # m2.m)) /\ Coupled(s, m1, m2, e1, e2, ps))
+            => PrintT(<<"CASE", ToJson(CaseOf(s, <<m1, m2>>))>>)
 
 VARIABLE i
 Init == i = 1
